@@ -1,5 +1,5 @@
 """C01 — forward analysis invariants over-approximate every concrete execution."""
-import os, vlib, cfgprog
+import os, vlib, cfgprog, C01_doms
 
 TRUSTED = [
     "Coq 8.16.1 kernel (coqc); no native_compute",
@@ -65,7 +65,8 @@ def run(rep, tier, seed):
     if r2:
         option_effect(rep, "fwd-thresholds-liveness", lines2, r2[1])
         validate_stream2(rep, "fwd-params-validated", lines2, r2[0], r2[1])
-
+    # every other native numerical domain inside the fixpoint engine: oracle only
+    C01_doms.streams(rep, tier, seed)
 
 def thrlive_nontrivial(line, ans):
     """rule: thr > 3 (thresholds can be added) or live = 1, and the program has a loop head whose entry
